@@ -1,6 +1,8 @@
 CONSTANTS
   MaxDepth = 3
   Mode = "cascade"
+  GMode = "cascade"
+  WithD = TRUE
 INIT Init
 NEXT Next
 VIEW View
